@@ -41,11 +41,13 @@ func convExpr(e *ebnf.Expression) eExpr {
 		ts := []eTerm{}
 		for _, t := range s.Terms {
 			et := eTerm{Neg: t.Negation, Rep: t.Repetition, Expr: eExpr{Alts: [][]eTerm{}}}
+			// (read through reflection so that the harness does not depend on the exact type of the field)
+			lit := fmt.Sprint(reflect.ValueOf(*t).FieldByName("Literal").Interface())
 			switch {
 			case t.Name != "":
 				et.Kind, et.Text = "name", t.Name
-			case t.Literal != "":
-				et.Kind, et.Text = "lit", t.Literal
+			case lit != "":
+				et.Kind, et.Text = "lit", lit
 			case t.Token != "":
 				et.Kind, et.Text = "tok", t.Token
 			case t.Group != nil:
